@@ -16,7 +16,7 @@ RULE = ("Engine S histories with many waiting requests of mixed priorities on bo
 ASSUMPTIONS = ["'at that instant' is judged when all kernel events of the timestamp are processed (DESIGN R2)",
                "availability read from public lists items / ready_items"]
 
-WEIGHTS = {"rp": 8, "rg": 8, "put": 6, "get": 5, "cp": 3, "cg": 3, "settle": 1, "adv": 5}
+WEIGHTS = {"rp": 8, "rg": 8, "put": 6, "get": 5, "cp": 3, "cg": 3, "settle": 1, "adv": 5, "peek": 1}
 CLASSES = gen_store.ALL_PLAIN + gen_store.BELTS
 
 
@@ -25,7 +25,7 @@ def examples(tier):
 
 
 def strategy(tier):
-    return gen_store.case(CLASSES, WEIGHTS, max_ops=40, macros=4, extra=4)
+    return gen_store.case(CLASSES, WEIGHTS, max_ops=40, macros=4, extra=6)
 
 
 shrink_candidates = gen_store.shrink_candidates
